@@ -285,7 +285,9 @@ def b_revolve(case, ctx):
             ref["inertia"] = a * np.eye(3) + (c - a) * np.outer(d, d)
             ref["vertices"] = np.asarray(m.vertices)  # only used for the conditioning of the tolerances
             check_measures(m, ref, sig, "segment form")
-            half = h / 2 * np.abs(d) + radii.max() * np.sqrt(np.maximum(0, 1 - d * d))
+            # sin of the angle between the axis and coordinate axis i, from the other two components (1 - d_i^2 cancels)
+            sin_i = np.sqrt(np.array([d[1] ** 2 + d[2] ** 2, d[0] ** 2 + d[2] ** 2, d[0] ** 2 + d[1] ** 2]))
+            half = h / 2 * np.abs(d) + radii.max() * sin_i
             b = np.asarray(m.bounds)
             check((b[0] >= mid - half - tol).all() and (b[1] <= mid + half + tol).all(), sig + "|bounds", "bounds exceed the smooth cylinder's box")
             check(len(m.faces) == local["nfaces"], sig + "|face_count", f"{len(m.faces)} faces, expected {local['nfaces']}")
